@@ -25,7 +25,7 @@ ASSUMPTIONS = [
 
 def floors(tier):
     return {"states_checked": 3000, "pairs_matched_bit_exact": 8000, "chains_skipping_an_iterate": 60, "restart_states_checked": 150,
-            "inherited_pairs_checked": 300, "operators_spd_checked": 2500, "diag_operators": 800, "diag_operators_with_zero_columns": 200, "rejected_pair_then_failed_search_then_progress": 20, "switch_states_checked": 300, "__nontrivial__": 150}
+            "inherited_pairs_checked": 300, "operators_spd_checked": 2500, "diag_operators": 800, "diag_operators_with_zero_columns": 200, "rejected_pair_then_failed_search_then_progress": 20, "second_continuations_from_one_checkpoint_object": 40, "switch_states_checked": 300, "__nontrivial__": 150}
 
 
 def cases(tier, seed):
@@ -188,6 +188,14 @@ def run_case(spec, out, keys):
         if tr.exc is not None:
             out.count("runs_raised")
             return
+        if ck is not None and step % 2 == 1:
+            # a second continuation from the very same checkpoint object (a user trying other settings from one saved state): it is this
+            # one that is judged - its pairs must come from its own lineage, not from the first continuation's
+            tr = probes.run_min(P, c, checkpoint=ck, x0=np.array(ck.x, dtype=float, copy=True))
+            out.count("second_continuations_from_one_checkpoint_object")
+            if tr.exc is not None:
+                out.count("runs_raised")
+                return
         if "scaler" in c and tr.scaler_calls:
             s = float(c["scaler"])
         start_x = np.clip(P.x0, P.lb, P.ub) if ck is None else np.array(ck.x, dtype=float)
